@@ -13,10 +13,6 @@ std::optional<ExpressionValue>
 Interpreter::Evaluate(const std::string& expr, const Syntax syntaxHint) {
   parser.log.Clear();
   ast = nullptr;
-  if (std::empty(expr)) {
-    return std::nullopt;
-  }
-  
   if (!parser.Parse(expr, syntaxHint)) {
     return std::nullopt;
   } else {
